@@ -513,7 +513,8 @@ def run_check(engine, tier):
         json.dump(ev, f, indent=1, default=repr)
     if tier == "thorough":
         # the registered evidence file is rewritten by every run; keep the record of the deep run next to it
-        with open(os.path.join(evdir, "%s.thorough.json" % prop), "w") as f:
+        os.makedirs(os.path.join(evdir, "thorough"), exist_ok=True)
+        with open(os.path.join(evdir, "thorough", "%s.json" % prop), "w") as f:
             json.dump(ev, f, indent=1, default=repr)
     print("[%s] %d runs, %d non-trivial, %d distinct signatures, %.0f sim-seconds, faults fired=%d, violations=%d, known=%d, %.1fs"
           % (prop, agg["n"], agg["nontrivial"], len(agg["sigs"]), agg["sim_s"], sum(agg["faults"].values()),
